@@ -299,6 +299,13 @@ pub struct Made {
 /// one valid frame of `n` samples per channel; None if this draw cannot express its target
 pub fn make_frame(ch: &Choices, rng: &mut Xoshiro, bps: u32, bps_code: u8, assign: u64, channels: usize, n: usize, number: u64) -> Option<Made> {
     let chans: Vec<Vec<i64>> = (0..channels).map(|_| gen_target(ch, rng, n, bps)).collect();
+    make_frame_from(ch, rng, bps, bps_code, assign, chans, number)
+}
+
+/// one valid frame holding the given PCM (per channel)
+pub fn make_frame_from(ch: &Choices, rng: &mut Xoshiro, bps: u32, bps_code: u8, assign: u64, chans: Vec<Vec<i64>>, number: u64) -> Option<Made> {
+    let channels = chans.len();
+    let n = chans[0].len();
     let (code, ca, stored, sbits): (u8, ChannelAssignment, Vec<Vec<i64>>, Vec<u32>) = match assign {
         1 => (
             8,
